@@ -143,7 +143,11 @@ TypeStrings == <<
   "uint8[18446744073709551616]", "uint8[-1]", "uint8[+1]", "uint8[ 1]", "uint8[1e3]", "uint8[4294967296]", "uint8[1000000]",
   "bytes0", "bytes33", "bytes4294967296", "bytes99999999999999999999", "uint0", "uint7", "uint257", "uint4294967304", "uint99999999999999999999",
   "int", "uint", "bytes", "int256x", "", " ", "uint8 ", CpsToStr(<<117, 105, 110, 116, 1636>>), CpsToStr(<<98, 121, 116, 101, 115, 65297>>),
-  "Q[0]", "uint8[0]", "uint8[0][]", Sfx(3000, "a") >>
+  "Q[0]", "uint8[0]", "uint8[0][]", Sfx(3000, "a"),
+  \* non-ASCII characters before / between digits and brackets (byte index vs character index)
+  CpsToStr(<<71, 114, 246, 223, 101, 50>>), CpsToStr(<<233, 49>>), CpsToStr(<<36039, 29987, 49, 91, 93>>), CpsToStr(<<252, 110, 116, 56>>),
+  CpsToStr(<<117, 105, 110, 116, 233, 56>>), CpsToStr(<<98, 121, 116, 101, 115, 128512, 51, 50>>), CpsToStr(<<81, 91, 233, 93>>),
+  CpsToStr(<<128512, 91, 50, 93>>), CpsToStr(<<117, 105, 110, 116, 56, 91, 1636, 93>>) >>
 NTypeStr == 2 * Len(TypeStrings)
 TypeStrAt(j) ==
   LET ty == TypeStrings[1 + ((j - 1) % Len(TypeStrings))]
